@@ -232,6 +232,10 @@ func init() {
 		return ret1(x.tc.Const(64, uint64(x.cfg.Tier)))
 	}
 	intrinsics[zz+"Shard"] = func(x *Exec, st *State, fr *Frame, fn *ssa.Function, a []Value) (Value, int) {
+		n := int(x.concInt(a[0], "Shard"))
+		if n != x.nshards && !(x.nshards == 0 && n <= 1) {
+			panic(x.unsupported(fmt.Sprintf("Shard(%d) does not match the statically detected shard count %d", n, x.nshards)))
+		}
 		return ret1(x.tc.Const(64, uint64(x.shard)))
 	}
 	intrinsics[zz+"AllowPanic"] = func(x *Exec, st *State, fr *Frame, fn *ssa.Function, a []Value) (Value, int) {
